@@ -26,9 +26,9 @@ def _c01_units(prefix, prop, cq, ct):
 
 import os as _os
 _HARNESS = _os.path.join(_os.path.dirname(_os.path.dirname(_os.path.abspath(__file__))), 'harness')
-def _fz(name, src, cflags, rule, qruns=150000, truns=20000000, dictfile=None):
+def _fz(name, src, cflags, rule, qruns=150000, truns=60000000, dictfile=None):
     return U(name, 'fuzz/' + src, flavour='fuzz', kind='libfuzzer', cflags=cflags, libs=['-lpugixml'], rule=rule, dict=(_os.path.join(_HARNESS, 'fuzz', dictfile) if dictfile else None),
-             quick=dict(runs=qruns, seconds=60, max_len=4096, min_eval=20000), thorough=dict(runs=truns, seconds=900, max_len=4096, min_eval=1000000))
+             quick=dict(runs=qruns, seconds=60, max_len=4096, min_eval=20000), thorough=dict(runs=truns, seconds=2400, max_len=4096, min_eval=1000000))
 
 _FZ_LOAD_RULE = 'coverage-guided bytes: byte 0 selects one of 30 target types (class with 18 members and validators, containers, maps with string / int / float / timestamp / enum keys, tuples, arrays, byte containers, optionals, chrono, dynamic trees of 4 shapes, scalars), byte 1 policies x medium (memory, istringstream, short-read and non-seekable streambuf, chunk size); seeds = valid documents of every selector; non-trivial = the load returned normally or failed above the syntax level (mismatch, overflow, range, validation, UTF)'
 PROPERTIES = {
